@@ -581,6 +581,60 @@ harness! {
     }
 }
 
+harness! {
+    /// kind=bounded tier=quick bound="ArrayBuilder<L, N>, N in {1,2,3}: destination with kb <= N and source with ko <= N drop-tracked elements, `Clone::clone_from(&mut dst, &src)` (the trait method; today the default), then both dropped: every old destination element dropped exactly once by clone_from, the source untouched, the destination holds one fresh clone per source element in order, and in the end every element ever created was dropped exactly once"
+    #[kani::unwind(7)]
+    fn c15_builder_clone_from(s) {
+        fn go<S: Src, const N: usize>(s: &mut S) {
+            reset();
+            let mut dm = Model { ids: [0; 4], pay: [0; 4], lo: 0, hi: 0 };
+            let mut sm = Model { ids: [0; 4], pay: [0; 4], lo: 0, hi: 0 };
+            let mut dst = ArrayBuilder::<L, N>::new();
+            let mut src = ArrayBuilder::<L, N>::new();
+            let kb = s.upto(N);
+            let ko = s.upto(N);
+            let mut j = 0;
+            while j < N {
+                if j < kb {
+                    let p = s.u32();
+                    let v = fresh(p);
+                    dm.ids[dm.hi] = v.id;
+                    dm.pay[dm.hi] = p;
+                    dm.hi += 1;
+                    dst.push(v);
+                }
+                if j < ko {
+                    let p = s.u32();
+                    let v = fresh(p);
+                    sm.ids[sm.hi] = v.id;
+                    sm.pay[sm.hi] = p;
+                    sm.hi += 1;
+                    src.push(v);
+                }
+                j += 1;
+            }
+            let before = next_id();
+            Clone::clone_from(&mut dst, &src);
+            chk!(s, rem_count(&dm.ids, 0, kb, 1), "C15.builder.clone_from_drops_each_old_destination_element_once");
+            chk!(s, rem_count(&sm.ids, 0, ko, 0) && slice_matches(src.as_slice(), &sm), "C15.builder.clone_from_leaves_source");
+            let (ok, cids) = clone_matches(dst.as_slice(), &sm, before);
+            chk!(s, ok && dst.len() == ko, "C15.builder.clone_from_holds_one_fresh_clone_per_source_element_in_order");
+            cov!(s, kb > ko, "C15.cover.clone_from_longer_destination");
+            cov!(s, kb < ko, "C15.cover.clone_from_shorter_destination");
+            drop(dst);
+            chk!(s, rem_count(&cids, 0, ko, 1), "C15.builder.clone_from_then_drop_drops_the_clones_once");
+            chk!(s, rem_count(&sm.ids, 0, ko, 0), "C15.builder.drop_of_destination_leaves_source_elements");
+            drop(src);
+            chk!(s, rem_count(&sm.ids, 0, ko, 1) && rem_count(&dm.ids, 0, kb, 1) && bad() == 0, "C15.builder.every_element_dropped_exactly_once_in_the_end");
+        }
+        match 1 + s.upto(2) {
+            1 => go::<S, 1>(s),
+            2 => go::<S, 2>(s),
+            _ => go::<S, 3>(s),
+        }
+    }
+}
+
 macro_rules! c15_builder_clone {
     ($name:ident, $n:literal) => {
         harness! {
